@@ -22,6 +22,26 @@ type SchemaContent struct {
 	Types    map[string]string // type name -> canonical body
 }
 
+// addType records a type of the schema's "types" list. The list carries simple names only, so
+// two namespaces that define a type of the same name give two entries under one name: they are
+// kept as a sorted set (which entry belongs to which namespace cannot be told from the schema).
+func (s *SchemaContent) addType(name, body string) {
+	old, ok := s.Types[name]
+	if !ok {
+		s.Types[name] = body
+		return
+	}
+	parts := strings.Split(old, "\n   | ")
+	for _, p := range parts {
+		if p == body {
+			return
+		}
+	}
+	parts = append(parts, body)
+	sort.Strings(parts)
+	s.Types[name] = strings.Join(parts, "\n   | ")
+}
+
 func (s *SchemaContent) String() string {
 	var b strings.Builder
 	fmt.Fprintf(&b, "protocol %s\n", s.Protocol)
@@ -145,7 +165,7 @@ func ExpectedSchema(env *model.Env, proto *model.Def) *SchemaContent {
 			if d == nil {
 				return
 			}
-			s.Types[d.Name] = canonDef(d)
+			s.addType(d.Name, canonDef(d))
 			model.DefTypes(d, visitT)
 		})
 	}
@@ -323,7 +343,7 @@ func ExtractSchema(text string) (*SchemaContent, error) {
 				}
 				fs = append(fs, fmt.Sprintf("%v:%s", fm["name"], t))
 			}
-			s.Types[name] = "record" + typeParams(m) + "{" + strings.Join(fs, ";") + "}"
+			s.addType(name, "record" + typeParams(m) + "{" + strings.Join(fs, ";") + "}")
 		case m["values"] != nil:
 			var vs []string
 			for _, v := range m["values"].([]any) {
@@ -331,13 +351,13 @@ func ExtractSchema(text string) (*SchemaContent, error) {
 				vs = append(vs, fmt.Sprintf("%v=%v", vm["symbol"], vm["value"]))
 			}
 			base, _ := m["base"].(string)
-			s.Types[name] = "enum(" + base + "){" + strings.Join(vs, ",") + "}"
+			s.addType(name, "enum(" + base + "){" + strings.Join(vs, ",") + "}")
 		case m["type"] != nil:
 			t, err := extractType(m["type"])
 			if err != nil {
 				return nil, err
 			}
-			s.Types[name] = "alias" + typeParams(m) + "=" + t
+			s.addType(name, "alias" + typeParams(m) + "=" + t)
 		default:
 			return nil, fmt.Errorf("unrecognised type entry %v", m)
 		}
